@@ -84,6 +84,11 @@ def _cases(shard):
         for o in more:
             pos = draw(st.integers(0, len(ops)))
             ops.insert(pos, o)
+        # a quarter of the tree cases start from a shape built through __setstate__: stale separators and unequal
+        # depths are legal states (docs/development.rst) that histories of the Python implementation never reach
+        if kind in F.TREE_KINDS and ktype == 'int' and draw(st.integers(0, 3)) == 0:
+            from vlib import treespec
+            c['spec'] = draw(treespec.valid_specs(fam, max_keys=14))
         return c
 
     return case()
@@ -190,6 +195,17 @@ def run_case(case, ctx):
     zoo_on_multi = False
     with ZLive(cfg, impl='c') as lc, ZLive(cfg, impl='py') as lp:
         classes = ['kind:' + lc.kind, 'fam:' + lc.fam, 'mode:' + lc.mode]
+        if case.get('spec') is not None:
+            from vlib import treespec
+            for lv in (lc, lp):
+                lv.t, _ = treespec.build(lv.fam, lv.kind, lv.impl, case['spec'], tree_class=lv.klass)
+                lv.loaded = True
+                lv.model = dict(lv.t.items()) if lv.is_map else dict((k, None) for k in lv.t.keys())
+            if lc.contents() != lp.contents():
+                ctx.mismatch('tree built from the state %r: C lists %r, Python lists %r'
+                             % (case['spec'], lc.contents(), lp.contents()),
+                             {'kind': lc.kind, 'op': 'setstate', 'what': 'contents'}, recoverable=False)
+            classes.append('start:spec')
         for i, op in enumerate(case['ops']):
             name = op[0]
             role, z = _zinfo(op)
@@ -249,6 +265,21 @@ def run_case(case, ctx):
             if cc != cp and repr(cc) != repr(cp):
                 ctx.mismatch('%s: contents differ afterwards: C %r, Python %r' % (desc, cc, cp),
                              dict(sig, what='contents'), recoverable=False)
+            if case.get('spec') is not None:
+                # Started from a hand-made state (stale separators, unequal depth): results, exceptions and
+                # contents must agree; the two implementations legitimately pick different - both valid -
+                # separators when such a node splits (C promotes the stored separator, Python the subtree's
+                # real minimum), so layout and pickle are compared only for histories that start empty.
+                for lv, c in ((lc, cc), (lp, cp)):
+                    lv.model = dict(c) if lv.is_map else dict((k, None) for k in c)
+                    if lv.is_tree:
+                        try:
+                            lv.t._check()
+                            walker.walk(lv.t, lv.is_map)
+                        except (AssertionError, walker.WalkError) as e:
+                            ctx.mismatch('%s: %s tree not sound afterwards: %s' % (desc, lv.impl, e),
+                                         dict(sig, what='unsound', impl=lv.impl), recoverable=False)
+                continue
             sc = walker.skeleton(lc.t, lc.is_map, lc.is_tree)
             sp = walker.skeleton(lp.t, lp.is_map, lp.is_tree)
             if repr(sc) != repr(sp):
